@@ -1008,7 +1008,11 @@ def colorized_pyval_fallback(_: List[ParseError], doc:ParsedDocstring, __:model.
     """
     This fallback function uses L{ParsedDocstring.to_node()}, so it must be used only with L{ParsedDocstring} subclasses that implements C{to_node()}.
     """
-    return Tag('code')(node2stan.gettext(doc.to_node()))
+    try:
+        return Tag('code')(node2stan.gettext(doc.to_node()))
+    except NotImplementedError:
+        # ParsedTypeDocstring (the type given by a field) can't be converted to a docutils document.
+        return BROKEN
 
 def _format_constant_value(obj: model.Attribute) -> Iterator["Flattenable"]:
 
